@@ -466,6 +466,34 @@ Definition m_items (raw : bool) (s : st) (v : view) : st * out :=
   | Ok xs => (s, Ok (map (fun x => if raw then x else mkelem 0 (e_key x) (e_val x)) xs))
   end.
 
+(* the dict views keys() / values() / items() (_DictView and its six subclasses):
+   which = 0 keys, 1 values, 2 items;  __iter__ as m_keys / m_values / m_items, __len__ = len(wrapper),
+   __reversed__ = the same over reversed(wrapper), __contains__ = any(v is x or v == x for v in self) *)
+Inductive dquery := DIter | DLen | DReversed | DIn (x : elem).
+Definition dv_conv (which : Z) (raw : bool) (x : elem) : elem :=
+  if which =? 0 then mkelem 0 (e_key x) 0
+  else if which =? 1 then (if raw then x else value_of x)
+  else (if raw then x else mkelem 0 (e_key x) (e_val x)).
+Definition m_dict (which : Z) (raw : bool) (q : dquery) (s : st) (v : view) : st * out :=
+  match q with
+  | DLen => (s, Ok [mkelem 0 0 (zlen (v_idx v))])
+  | DIter | DReversed | DIn _ =>
+      match fetch KNode (items s) (match q with DReversed => rev (v_idx v) | _ => v_idx v end) with
+      | Err e => (s, Err e)
+      | Ok xs =>
+          let l := map (dv_conv which raw) xs in
+          (s, Ok (match q with
+                  | DIn x => [mkelem 0 0 (if existsb (fun y => elem_eqb y x) l then 1 else 0)]
+                  | _ => l end))
+      end
+  end.
+
+(* `model.view += values` / `model.raw_xs += values`: MutableSequence.__iadd__ extends and returns self, then
+   the attribute is assigned the object it already holds, which is a no-op (cached_custom_property.__set__
+   returns early; repeated_node_property.__set__: replace_node(node, node) returns, no view is dropped) *)
+Definition v_iadd (s : st) (xs : list elem) : st * out := v_extend s xs.
+Definition raw_iadd (s : st) (xs : list elem) : st * out := raw_extend s xs.
+
 (* ===== operation language (shared with harness/c10.py) ======================================= *)
 Inductive op :=
 | ORegister (tags : list Z) (k : vkind)
@@ -481,7 +509,9 @@ Inductive op :=
 | MSet (k : nat) (raw : bool) (key : Z) (x : elem) | MPop (k : nat) (raw : bool) (key : Z) (dflt : bool)
 | MKeys (k : nat) | MValues (k : nat) (raw : bool) | MItems (k : nat) (raw : bool)
 | MPopItem (k : nat) (raw : bool)
-| RReverse | VReverse (k : nat).
+| RReverse | VReverse (k : nat)
+| RIAdd (xs : list elem) | VIAdd (k : nat) (xs : list elem)
+| MDict (k : nat) (which : Z) (raw : bool) (q : dquery).
 
 Definition with_view (s : st) (k : nat) (f : view -> st * out) : st * out :=
   match nth_error (views s) k with
@@ -525,6 +555,9 @@ Definition step (s : st) (o : op) : st * out :=
   | MPopItem k raw => with_view s k (m_popitem raw s)
   | RReverse => raw_reverse s
   | VReverse k => with_view s k (v_reverse s)
+  | RIAdd xs => raw_iadd s xs
+  | VIAdd k xs => with_view s k (fun _ => v_iadd s xs)
+  | MDict k which raw q => with_view s k (m_dict which raw q s)
   end.
 
 (* a history: the state after every operation (exceptions do not stop a history) *)
